@@ -30,6 +30,12 @@ theorem queuedState_reachable : Reachable queuedState := reachable_run (Reachabl
 theorem assignedState_reachable : Reachable assignedState := reachable_run queuedState_reachable _
 theorem completedState_reachable : Reachable completedState := reachable_run assignedState_reachable _
 
+/-- **`C01.inv_reachable`.**  The whole invariant `Inv` (`BbRe/Lemmas/SchedInvDefs.lean`: `Core` —
+table well-formedness, `ptr`, `queued`, dedup exactness, learner bookkeeping, worker flags; `OInv` —
+operations ↔ tasks; `SInv` — waiter counts, parked streams, no-waiter cleanup entries; `LogInv` — the
+ghost event log) holds in every reachable state. -/
+theorem inv_reachable {s : State} (hr : Reachable s) : Inv s := BbRe.Lemmas.SchedInv.inv_reachable hr
+
 /-- **`Inv.ptr`, worker ⇒ task.**  A worker's `currentTask` names an existing,
 uncompleted task whose `currentWorker` is that worker. -/
 theorem ptr_worker_to_task {s : State} (hr : Reachable s) {q : ScqId} {w : WId} {wk : Worker} {tid : Nat}
@@ -96,6 +102,9 @@ example : (queuedState.task? 1).map (·.queued) = some true := by decide
 theorem assigned_not_completed {s : State} (hr : Reachable s) {tid : Nat} {t : Task}
     (ht : s.task? tid = some t) (hw : t.worker.isSome = true) : t.response = none :=
   (inv_reachable hr).core.p3 tid t ht hw
+
+example : (assignedState.task? 1).map (fun t => (t.worker.isSome, t.response.isNone, t.queued)) =
+    some (true, true, false) := by decide
 
 /-- **`Inv.queued`, coverage** (at segment boundaries — inside `task.complete` and between the
 creation of a task and `task.schedule` a task is transiently neither; the proof carries that
